@@ -780,11 +780,13 @@ def refute_candidates(prog, ctx, ntwins, reached, via):
     candidate is refuted, and becomes a note, when for every entry point E it was derived from there is a twin evaluation in
     which E was entered with pending signs on an operand, S was executed inside that call, the evaluation ran to a result
     on both twins and the results agree (the construct is sign-even, or the operand had been synchronised through a form
-    the typestate does not track).  A candidate in code the twins never reach that way (the factorisations, code with a
+    the typestate does not track), and on the synchronised twin no array in scope at S carried pending signs (signs produced
+    inside the operation are not what the twins differ in).  A candidate in code the twins never reach that way (the factorisations, code with a
     user callable, statements only executed on arrays without pending signs), and every candidate when some twin
     differs, stays a finding."""
     if reached is None:
         return
+    reached, internal = reached
     keep, dropped = [], []
     for f in ctx.findings:
         ok = False
@@ -795,7 +797,9 @@ def refute_candidates(prog, ctx, ntwins, reached, via):
                 # rules about one function: the entry is any fermionic frame that was running it
                 fn = next((g for g in prog.funcs.values() if g.file == f.file and g.qualname == f.qualname), None)
                 ents = {fn.fq} if fn is not None else set()
-            ok = bool(ents) and all((e, f.file, line) in reached for e in ents)
+            # ... and on the synchronised twin no array in scope at S carries pending signs: signs seen there were produced inside
+            # the operation, and the twins (which differ in the operand only) say nothing about how S treats them
+            ok = bool(ents) and all((e, f.file, line) in reached for e in ents) and (f.file, line) not in internal
         (dropped if ok else keep).append(f)
     ctx.findings[:] = keep
     for f in dropped:
